@@ -210,9 +210,10 @@ prop("C05",
      scripts=lambda tier, rnd: S.pm_busy() + S.pm_gates() + S.api_races() + S.close_race_connect(12 if tier == "thorough" else 4) +
      sample(S.pacing(), rnd, 120 if tier == "thorough" else 25) +
      sample(S.two_sessions(), rnd, 21 if tier == "thorough" else 6) + S.stop_dial_race(2) +
-     S.stop_everywhere(rnd, 200 if tier == "thorough" else 25) + S.fuzz(rnd, 400 if tier == "thorough" else 50) + S.message_grid(rnd, 300 if tier == "thorough" else 60) +
-     S.notif_values(rnd, 120 if tier == "thorough" else 25) + (S.trailing() if tier == "thorough" else sample(S.trailing(), rnd, 60)),
-     mc=lambda tier: [mc_pair(["openLo", "ka", "fault", "notif"], conns=2, msgs=2)],
+     S.stop_everywhere(rnd, 200 if tier == "thorough" else 20) + S.fuzz(rnd, 400 if tier == "thorough" else 40) + S.message_grid(rnd, 300 if tier == "thorough" else 40) +
+     S.notif_values(rnd, 120 if tier == "thorough" else 20) + (S.trailing() if tier == "thorough" else sample(S.trailing(), rnd, 45)),
+     mc=lambda tier: [mc_pair(["openLo", "ka", "fault"], conns=2, msgs=2)] if tier == "quick" else
+     [mc_pair(["openLo", "ka", "fault", "notif"], conns=2, msgs=2), mc_pair(["openBad", "openLo", "ka", "upd", "cease"], conns=1, msgs=3, dials=2)],
      nontrivial=lambda s, r: True,
      end_oracles={"leak", "unclosed"},
      rule="well-formed prefix + mutated bytes at every FSM state and direction, with a second peer establishing afterwards and "
